@@ -913,6 +913,74 @@ def raw_buffer_twin(n):
     return {**n, "layout": "F"}, {**n, "hex": fbytes.hex(), "layout": "C"}
 
 
+# values that Python considers EQUAL (==, same hash()) although they differ in type or content: as dict keys / set elements
+# they fall into one slot, and any memo keyed by the VALUE (instead of id()) confuses them
+def _c(re_, im_=0.0):
+    return {"k": "complex", "re": _bits(re_), "im": _bits(im_)}
+
+
+EQ_FAMILIES = [
+    [_i(1), {"k": "bool", "v": True}, _f(1.0), _c(1.0)],
+    [_i(0), {"k": "bool", "v": False}, _f(0.0), _f(-0.0), _c(0.0)],
+    [_i(2), _f(2.0), _c(2.0)],
+    [{"k": "tuple", "xs": [_i(1), _i(2)]}, {"k": "tuple", "xs": [{"k": "bool", "v": True}, _f(2.0)]}, {"k": "tuple", "xs": [_f(1.0), _i(2)]}],
+    [{"k": "frozenset", "xs": [_i(1)]}, {"k": "frozenset", "xs": [{"k": "bool", "v": True}]}, {"k": "frozenset", "xs": [_f(1.0)]}],
+]
+
+
+def gen_eq_twins(rng):
+    """(k1, k2): two values with k1 == k2 in Python but different type / content"""
+    import copy
+
+    k1, k2 = rng.sample(rng.choice(EQ_FAMILIES), 2)
+    return copy.deepcopy(k1), copy.deepcopy(k2)
+
+
+def eq_holder(rng, k, how: str, payload):
+    """a value holding k: as the key of a dict, the element of a set / frozenset, or plainly"""
+    if how == "dict":
+        return {"k": "dict", "items": [[k, payload]]}
+    if how == "dict2":
+        return {"k": "dict", "items": [[_s("z"), _i(0)], [k, payload]]}
+    if how == "set":
+        return {"k": "set", "xs": [k, _s("z")]}
+    if how == "frozenset":
+        return {"k": "frozenset", "xs": [k]}
+    return {"k": "list", "xs": [k, payload]}
+
+
+def gen_eq_sibling_pair(rng):
+    """A = C[x, y'] and B = C[x, y]: x and y hold k1, y' holds k2 == k1 (other type/content), all inside ONE container, so
+    that they are hashed in one hash_function call.  y and y' hash differently alone, hence A and B must hash differently."""
+    k1, k2 = gen_eq_twins(rng)
+    how = rng.choice(["dict", "dict", "dict2", "set", "frozenset", "plain"])
+    payload = gen_scalar(rng)
+    x, y, y2 = eq_holder(rng, k1, how, payload), eq_holder(rng, k1, how, payload), eq_holder(rng, k2, how, payload)
+    c = rng.choice(["list", "tuple", "dict", "obj", "nested"])
+    if how == "frozenset" and rng.random() < 0.3:
+        c = "set"  # two frozensets as siblings inside a set
+
+    def wrap(a, b):
+        if c in ("list", "tuple"):
+            return {"k": c, "xs": [a, b]}
+        if c == "dict":
+            return {"k": "dict", "items": [[_s("p"), a], [_s("q"), b]]}
+        if c == "obj":
+            return {"k": "obj", "cls": rng.choice(["PlainA", "SlotsA", "AttrsA"]), "kw": {"x": a, "y": b}}
+        if c == "set":
+            return {"k": "set", "xs": [a, b]}
+        return {"k": "list", "xs": [{"k": "tuple", "xs": [a]}, {"k": "dict", "items": [[_s("deep"), {"k": "list", "xs": [b]}]]}]}
+
+    import copy
+
+    w = copy.deepcopy
+    st = rng.getstate()
+    A = wrap(w(x), w(y2))
+    rng.setstate(st)
+    B = wrap(w(x), w(y))
+    return A, B, f"eq-twins:{how}-in-{c}", (x, y2)
+
+
 def gen_layout_pair(rng, kind: str):
     """(A, B, same): kind 'layout' = equal content in two different memory layouts (must hash EQUAL);
     kind 'raw' = different contents with an identical raw buffer (must hash DIFFERENT)."""
